@@ -897,6 +897,9 @@ impl IfStatement {
         assign_context: AssignContext,
         base_tables: &[&AssignTable],
     ) {
+        // The condition is read before either side runs.
+        self.cond.eval_assign(context, assign_table, assign_context);
+
         let mut true_table = AssignTable::new(context);
         let mut false_table = AssignTable::new(context);
 
@@ -1203,6 +1206,15 @@ impl CaseStatement {
         assign_context: AssignContext,
         base_tables: &[&AssignTable],
     ) {
+        // The case target and the arm patterns are read before any arm runs.
+        self.case_target
+            .eval_assign(context, assign_table, assign_context);
+        for arm in &self.arms {
+            for p in &arm.patterns {
+                p.for_each_expr(|e| e.eval_assign(context, assign_table, assign_context));
+            }
+        }
+
         // Detach `refernced` before borrowing `assign_table` for base_tables.
         let mut prev_referenced = std::mem::take(&mut assign_table.refernced);
 
